@@ -23,6 +23,7 @@ import (
 
 	"verif/ev"
 	"verif/jv"
+	"verif/sgen"
 	"verif/tgen"
 )
 
@@ -406,6 +407,17 @@ func TestC09(t *testing.T) {
 		case k <= 7:
 			c.Doc = jv.Mutate(t, c.Doc, jv.Opts{MaxDepth: 1, MaxLen: 2})
 			c.Class = "free-mutation"
+		case k == 8:
+			// a document built from the inferred schema itself (every property the schema declares may
+			// appear): whatever the schema accepts must decode
+			if s, err := jsonschema.ForType(typ, nil); err == nil && s != nil {
+				if sb, err := json.Marshal(s); err == nil {
+					if sd, err := jv.Parse(string(sb)); err == nil {
+						c.Doc = sgen.Satisfy(t, sd, sd, 4)
+						c.Class = "schema-directed-document"
+					}
+				}
+			}
 		}
 		normaliseIntegers(typ, c.Doc)
 		fl, herr := checkC09(c, rec)
